@@ -618,7 +618,7 @@ def primes_everywhere(arch):
     return arch
 
 
-def mini_metrics_yaml(loop, isect, style, ro, lead="A", levels=None):
+def mini_metrics_yaml(loop, isect, style, ro, lead="A", levels=None, names=("A", "B")):
     """a small accelerator around Z[m,n] = A[k,m] * B[k,n]; tensor ranks as iterated (loop order, partition levels)"""
     levels = levels or {}
 
@@ -634,7 +634,8 @@ def mini_metrics_yaml(loop, isect, style, ro, lead="A", levels=None):
             y += "      %s:\n        format: C\n        cbits: 32\n        pbits: 64\n" % r
         return y
     ranks = {"A": iterated(ro.get("A", ["K", "M"])), "B": iterated(ro.get("B", ["K", "N"])), "Z": iterated(ro.get("Z", ["M", "N"]))}
-    y = "format:\n" + fmt("A", ranks["A"]) + fmt("B", ranks["B"]) + fmt("Z", ranks["Z"])
+    nA, nB = names
+    y = "format:\n" + fmt(nA, ranks["A"]) + fmt(nB, ranks["B"]) + fmt("Z", ranks["Z"])
     y += ("architecture:\n  Acc:\n  - name: System\n    attributes:\n      clock_frequency: 101\n    local:\n"
           "    - name: Mem\n      class: DRAM\n      attributes:\n        bandwidth: 211\n    subtree:\n"
           "    - name: PE[0..2]\n      local:\n      - name: Buf\n        class: Buffet\n        attributes:\n          width: 64\n          depth: 1024\n")
@@ -651,19 +652,19 @@ def mini_metrics_yaml(loop, isect, style, ro, lead="A", levels=None):
                 out += "    - tensor: %s\n      rank: %s\n      type: %s\n      format: default\n%s" % (t, r, ty, extra)
         return out
     y += "bindings:\n  Z:\n  - config: Acc\n    prefix: tmp/Z\n  - component: Mem\n    bindings:\n"
-    y += mem("A", ranks["A"]) + mem("B", ranks["B"]) + mem("Z", ranks["Z"])
+    y += mem(nA, ranks["A"]) + mem(nB, ranks["B"]) + mem("Z", ranks["Z"])
     y += "  - component: Buf\n    bindings:\n"
     ev = "      evict-on: root\n      style: %s\n" % style
     if style == "lazy":
-        y += mem("A", ranks["A"][-1:], ev) + mem("Z", ranks["Z"][-1:], ev)
+        y += mem(nA, ranks["A"][-1:], ev) + mem("Z", ranks["Z"][-1:], ev)
     else:
         ev = "      evict-on: %s\n      style: eager\n" % loop[0]
-        y += mem("A", ranks["A"][-1:], ev, ("coord",)) + mem("Z", ranks["Z"][-1:], ev, ("coord",))
+        y += mem(nA, ranks["A"][-1:], ev, ("coord",)) + mem("Z", ranks["Z"][-1:], ev, ("coord",))
     if isect:
         krank = [r for r in loop if r.startswith("K")][-1]
         y += "  - component: Isect\n    bindings:\n    - rank: %s\n" % krank
         if isect == "leader-follower":
-            y += "      leader: %s\n" % lead
+            y += "      leader: %s\n" % (nA if lead == "A" else nB)
     y += "  - component: Mul\n    bindings:\n    - op: mul\n  - component: Add\n    bindings:\n    - op: add\n"
     return y
 
@@ -717,6 +718,19 @@ def f_metrics(tier="quick", seed=0):
                                       "arch": secs["architecture"], "bindings": secs["bindings"], "format": secs["format"],
                                       "tags": {"family": "metrics", "template": "mini", "legal": True,
                                                "leader_first": not (isect == "leader-follower" and lead != "A")}})
+    # tensor names one of which contains the other (AT / A), leader-follower with the longer name leading
+    for lo in (["K", "M", "N"], ["M", "K", "N"]):
+        for nm in (("AT", "A"), ("A", "AB")):
+            for lead in ("A", "B"):
+                y = mini_metrics_yaml(lo, "leader-follower", "lazy", {}, lead, None, nm)
+                secs = S.split_sections(y)
+                d2 = {nm[0]: ["K", "M"], nm[1]: ["K", "N"], "Z": ["M", "N"]}
+                specs.append({"name": "metrics/mini-names/%s-%s/lo=%s/lead=%s" % (nm[0], nm[1], "".join(lo), lead), "decl": d2,
+                              "exprs": ["Z[m, n] = %s[k, m] * %s[k, n]" % nm],
+                              "mapping": {"loop-order": {"Z": lo}, "spacetime": {"Z": {"space": [], "time": lo}}},
+                              "extents": {"K": 3, "M": 2, "N": 2}, "sizes": {}, "arch": secs["architecture"], "bindings": secs["bindings"],
+                              "format": secs["format"],
+                              "tags": {"family": "metrics", "template": "mini-names", "legal": True, "leader_first": lead == "A"}})
     # partitioned variant (explicit shapes with interleaved levels)
     for lo in (["M1", "N", "K", "M0"], ["N", "M1", "M0", "K"], ["K", "M1", "N", "M0"]):
         for isect in (None, "two-finger", "leader-follower"):
